@@ -155,6 +155,7 @@ func runC04(c *Ctx) {
 	c.rule("N3", "removal primitives in the removal call graph are afero.Fs.Remove and the privileged fallback only (no RemoveAll)", 2)
 
 	c.rule("N9", "a function that holds the removal primitive does not take Exists()==false for 'absent': on that side the path is examined with Lstat/Stat, the error is classified (not-exist or not) and reported when it is not 'absent'", 1)
+	c.rule("N10", "Exists(): where opening a directory fails, 'does not exist' is answered only if the failure says so (the error is classified), never for every failure", 1)
 	c.rule("N8", "in the removal call graph, an error assigned to a variable is read before the variable is overwritten or the function returns: a failed step (cleaning, listing, removing) cannot be covered by the result of the next one", 40)
 
 	c.patternLoopsComplete("N4")
@@ -453,6 +454,73 @@ func runC04(c *Ctx) {
 					"the removal returns without an error as soon as Exists() answers false, which it also does for a path that cannot be examined (longer than PATH_MAX, unreadable parent): nothing is removed, the caller — a recursive removal one level up — finds the directory not empty and stops there, and Rm() reports success with the tree in place")
 			}
 		})
+	}
+
+	// ---- N10 ----------------------------------------------------------------
+	// The removal trusts Exists(); Exists() double-checks a directory by opening it. A directory that cannot be opened
+	// (no read permission) is not a directory that is not there.
+	{
+		ex := c.fn(fsPkgRel, "(*VFS).Exists")
+		var scope []*ssa.Function
+		if ex != nil {
+			scope = append(scope, ex)
+			for _, e := range c.outCalls(ex, false) {
+				if inPkg(fsPkgRel)(e.callee) && e.callee.Signature.Results().Len() == 1 && e.callee.Signature.Results().At(0).Type().String() == "bool" {
+					scope = append(scope, e.callee)
+				}
+			}
+		}
+		n := 0
+		for _, f := range scope {
+			allInstrs(f, func(in ssa.Instruction) {
+				cl, ok := in.(*ssa.Call)
+				if !ok || !cl.Call.IsInvoke() || cl.Call.Method.Name() != "Open" {
+					return
+				}
+				es := errResultsOf(cl)
+				if len(es) == 0 {
+					return
+				}
+				e := es[0]
+				n++
+				c.FuncsSeen[fname(f)] = true
+				bad := ""
+				for _, b := range f.Blocks {
+					r, isR := b.Instrs[len(b.Instrs)-1].(*ssa.Return)
+					if !isR || len(r.Results) != 1 {
+						continue
+					}
+					// on the failing side of the error, or of what it was converted into
+					failing := onNonNilSide(e, r)
+					for _, tb := range f.Blocks {
+						ifi, ok := tb.Instrs[len(tb.Instrs)-1].(*ssa.If)
+						if !ok || failing {
+							continue
+						}
+						if x, nilSucc, isNil := nilTest(ifi); isNil && x != e && c11DependsOn(x, []ssa.Value{e}, map[ssa.Value]bool{}, 0) && edgeDominates(tb, 1-nilSucc, b) {
+							failing = true
+						}
+					}
+					if !failing {
+						continue
+					}
+					classified := false
+					for _, l := range sources(r.Results[0], deriveOpts{through: func(string) bool { return false }}) {
+						if c11DependsOn(l, []ssa.Value{e}, map[ssa.Value]bool{}, 0) {
+							classified = true
+						}
+					}
+					if !classified {
+						bad = c.ipos(r)
+					}
+				}
+				c.check(bad == "", "N10", fname(f)+"/open-failure-classified", c.ipos(cl), "on the failing side of Open the answer depends on what the error says",
+					"where opening the directory fails the answer ("+bad+") does not depend on the error: a directory that cannot be read (permissions) 'does not exist', the removal of the tree around it stops there — successfully — and Rm() reports success with the tree in place")
+			})
+		}
+		if n == 0 {
+			c.info("N10", "filesystem.(*VFS).Exists/no-open", "-", "Exists() does not open directories any more")
+		}
 	}
 
 	// ---- N3 -----------------------------------------------------------------
